@@ -86,10 +86,11 @@ def pid_of(p, names):
     return "".join(float(p[n]).hex() for n in names)
 
 
-def snap(ns, full=False):
+def snap(ns, full=False, names=None):
     """the tracked fields of the standard sampler"""
     st = ns.state
-    names = ns.model.names if getattr(ns, "model", None) is not None else [n for n in ns.live_points.dtype.names if n.startswith("x")]
+    if names is None:
+        names = ns.model.names
     live = None if ns.live_points is None else [pid_of(p, names) for p in ns.live_points]
     d = {"iteration": int(ns.iteration), "n_dead": len(ns.nested_samples), "n_idx": len(ns.insertion_indices),
          "n_logLs": len(st.logLs), "n_logvols": len(st.log_vols), "n_nlive": len(st.nlive), "n_info": len(st.info),
@@ -329,7 +330,7 @@ def run_task(task, root, j):
             try:
                 with open(rf, "rb") as fh:
                     ck = pickle.load(fh)
-                out["checkpoint"] = snap(ck, full=True)
+                out["checkpoint"] = snap(ck, full=True, names=[f"x{i}" for i in range(task.get("dims", 2))])
             except BaseException as e:  # noqa
                 out["checkpoint_error"] = type(e).__name__ + ": " + str(e)[:200]
     rc2 = forked(phase2, task, outdir, task.get("timeout", 240))
